@@ -164,6 +164,20 @@ L4b:
  s_add_u32 s26, s26, 1
  s_cmp_lt_u32 s26, 3
  s_cbranch_scc1 L4"""
+# a gather: lanes 0..31 read one dword each from 32 different lines, lanes 32..63 consecutive dwords of the next lines
+# (sparsely used lines followed by densely used ones in one instruction)
+T['flat_ld_gather'] = """v_and_b32 v24, 63, v0
+ v_lshlrev_b32 v25, 6, v24
+ v_lshlrev_b32 v26, 2, v24
+ v_add_u32 v26, vcc, 0x780, v26
+ v_cmp_gt_u32 vcc, 32, v24
+ v_cndmask_b32 v25, v26, v25, vcc
+ v_add_u32 v17, vcc, s8, v25
+ v_mov_b32 v18, s9
+ v_addc_u32 v18, vcc, 0, v18, vcc
+ flat_load_dword v22, v[17:18]
+ s_waitcnt vmcnt(0)
+ v_add_u32 v23, vcc, v22, v23"""
 T['flat_two_outstanding'] = "flat_load_dword v22, v[9:10]\n flat_load_dword v23, v[11:12]\n s_waitcnt vmcnt(1)\n v_add_u32 v20, vcc, v22, v20\n s_waitcnt vmcnt(0)\n v_add_u32 v21, vcc, v23, v21"
 
 if __name__ == '__main__':
